@@ -103,6 +103,12 @@
 //	    through a method it calls on the receiver).  This is state carried between calls AND
 //	    between Modules values.
 //
+// Owned types (allow.json `owned_types`: Entry and its parts) may be held only by the declared owner
+// fields.  (O1) Only struct types that can be part of a value living between two calls count as
+// holders: those reachable through field types from the root type or from the type of a
+// package-level variable (canCarry).  A struct type that occurs in no field and in no package-level
+// variable — a view built for the caller on every call — keeps nothing; the notes name it.
+//
 // The reviewed file allow.json (embedded) says what each field is TODAY and why: registry (the
 // loaded modules themselves), config, sync (mutexes), derived (per-run state: must be reset or
 // generation-guarded, as computed here), call-scoped (empty outside a call; writers pinned).
